@@ -18,7 +18,7 @@ THEOREMS = [P + t for t in (
     "reencode_accepted", "label_regexes_avoid_newline", "stored_label_no_newline",
     "tags_sound", "tags_complete", "tag_no_newline", "name_accept_iff", "name_stored_is_input", "name_regexes_avoid_newline",
     "boot_accept_iff", "json_accept_iff", "int_of_digits", "range_holds_iff", "vlan_domain", "tag_domain", "node_name_domain",
-    "dollar_admits_trailing_newline")]
+    "dollar_admits_trailing_newline", "asn_domain", "accept_complete_many")]
 TRUSTED_BASE = [
     "gen/validators.py: regexes are parsed by CPython's own re._parser and translated opcode by opcode (subset check); anchoring read "
     "from the call sites by AST; range lambdas and size comparisons by AST; \\d, \\w, int()-stripped characters tabulated from the running interpreter",
